@@ -1,4 +1,4 @@
-HOOK_COMMITS = ["619d6a4", "cd1769c", "2c6d5d3", "1305a4a", "2212eef", "9305180", "d610073", "0581a33", "070ef38", "57bfc5e", "cfec00a", "afb6dc2", "c16a77c", "b219920", "0e3f6de", "f4719ea", "ee0abb0", "711fa36", "eca61b3", "6ff9b0b", "bd30adc"]
+HOOK_COMMITS = ["619d6a4", "cd1769c", "2c6d5d3", "1305a4a", "2212eef", "9305180", "d610073", "0581a33", "070ef38", "57bfc5e", "cfec00a", "afb6dc2", "c16a77c", "b219920", "0e3f6de", "f4719ea", "ee0abb0", "711fa36", "eca61b3", "6ff9b0b", "bd30adc", "815035c"]
 
 PENDING = "not claimed yet in this revision: model and theorems are still being built (see DESIGN.md section 5); it will be claimed once its check exists"
 
